@@ -1588,8 +1588,8 @@ func (r *Run) cellShrinksByWhatWasFound(fns []*Func) {
 						if call, ok := ast.Unparen(ev.Rhs[0]).(*ast.CallExpr); ok {
 							cellArg := false
 							for _, a := range call.Args {
-								if gridCell(a) == 2 {
-									cellArg = true
+								if gridCell(a) == 2 || gridCell(resolveLocal(ev.Fn, a, 0)) == 2 {
+									cellArg = true // (the cell itself, or a local that stands for it)
 								}
 							}
 							if cellArg {
